@@ -1,7 +1,7 @@
 /-
   Rva.Spec.Literal — what a numeric literal denotes, as a mathematical integer (no width).
   Written independently of the parser: a literal is an optional '-', then `0x` + hex digits,
-  `0b` + binary digits, decimal digits, or the keyword `zero`; letter case is irrelevant and
+  `0b` + binary digits or decimal digits - or, without a sign, the keyword `zero`; letter case is irrelevant and
   surrounding blanks are ignored. Everything else denotes nothing.
 -/
 import Rva.Model.Imm
@@ -25,7 +25,7 @@ def magnitude (body : List Char) : Option Nat :=
 
 /-- The unsigned part of a normalised literal, with the sign applied. -/
 def denoteBody (neg : Bool) (body : List Char) : Option Int :=
-  if body == "zero".toList then some 0
+  if body == "zero".toList then (if neg then none else some 0)
   else (magnitude body).map (signed neg)
 
 /-- The integer a normalised (lower-case, trimmed) literal denotes. -/
